@@ -83,7 +83,7 @@ class C14(Check):
         if before:
             res["nt"].append(src)
         probs = shape_problems(r)
-        res["oc"].append("clean" if not probs else probs[0][0])
+        res["oc"].append(("eliminated" if before else "nothing-to-eliminate") if not probs else probs[0][0])
         if probs:
             try:
                 shown = ast.unparse(r)
